@@ -47,7 +47,7 @@ def run(ctx, rep):
         'not decided.')
     rep.trusted = ['rustc MIR', 'two different polynomials in free atoms are different functions', W.policy.FEASIBLE_NOTE]
     table = W.classify_policies(ctx)
-    pa = W.get(ctx)
+    pa = W.get(ctx, rep)
     c0 = CV.get(ctx)
     ict = W.interval_cond_terms(pa)
     eph_ctors = set(ctx.role('eph_ctors'))
@@ -113,6 +113,20 @@ def run(ctx, rep):
                     rep.ob('R10.1', f'{pol}:{k}:applied', okx,
                            f'{k} is replaced by the substitute-latitude time' if okx else
                            f'{k} should be the substitute-latitude time but is {W.show_cell(cell)[:120]}', world=w.describe())
+            if scope != 'fajr_isha':
+                # all-prayers scope: Shurooq, Asr and Maghrib are taken from the substitute latitude in every outcome
+                # (invalid there = invalid here) and Dhuhr is flagged - for every substitute latitude
+                for k in ('Shurooq', 'Asr', 'Maghrib'):
+                    for cc in W.cell_cases(W.cell_under(w.final[k], w.asm)):
+                        kept = cc[0] == 'Ok' and (cc[1] == W.policy.conv_atom(k) or cc[2] != E.TRUE)
+                        rep.ob('R10.1', f'{pol}:{k}:applied', not kept,
+                               f'{k} is taken from the substitute latitude' if not kept else
+                               f'{k} keeps its conventional / unflagged value {W.show_cell(cc)[:100]} although the policy replaces all prayers',
+                               world=w.describe())
+                for cc in W.cell_cases(W.cell_under(w.final['Dhuhr'], w.asm)):
+                    okd = cc[0] == 'Ok' and cc[2] == E.TRUE
+                    rep.ob('R10.1', f'{pol}:Dhuhr:flagged', okd, 'Dhuhr is flagged under the all-prayers policy' if okd else
+                           f'Dhuhr is {W.show_cell(cc)[:80]} under the all-prayers policy', world=w.describe())
             for k in keys:
                 cell = W.cell_under(w.final[k], w.asm)
                 if cell[0] != 'Ok' or cell[2] != E.TRUE:
